@@ -55,14 +55,12 @@ theorem flatMap_congr' (f g : Nat → List Nat) : ∀ l : List Nat, (∀ j ∈ l
 def padTail (len : Nat) : List Nat :=
   if 13 * numParts len = len then [] else 0 :: List.replicate (13 * numParts len - len - 1) 0xFFFF
 
-theorem padTail_isPad (len : Nat) : ∀ x ∈ padTail len, isPad x = true := by
-  intro x hx
-  unfold padTail at hx
-  split at hx
-  · simp at hx
-  · rcases List.mem_cons.1 hx with h | h
-    · simp [h, isPad]
-    · rw [List.mem_replicate] at h; simp [h.2, isPad]
+/-- cutting the padded units at the first NUL gives back a name that has no NUL unit -/
+theorem cutAtNul_padded (u : List Nat) (h : ∀ x ∈ u, x ≠ 0) : cutAtNul (u ++ padTail u.length) = u := by
+  unfold padTail
+  split
+  · rw [List.append_nil]; exact cutAtNul_of_nonzero u h
+  · exact cutAtNul_append_nul u _ h
 
 /-- all `13·n` units of the generated slots, in name order, are the name followed by the padding -/
 theorem flatMap_part (u : List Nat) (h1 : 1 ≤ u.length) :
@@ -171,12 +169,12 @@ theorem readLoop_lfn_block (alloc sv : Bool) : ∀ (R rest : List (List Nat)) (i
     congr 1; omega
 
 /-- a complete run directly before a short entry whose checksum it carries is handed out (both variants):
-    the entry's long name is the run's units with the trailing padding stripped — unless more than 255 units remain,
+    the entry's long name is the run's units before the first `0x0000` — unless more than 255 units remain,
     then the entry has no long name -/
 theorem read_complete_run (alloc sv : Bool) (R : List (List Nat)) (sfn : List Nat)
     (hR : CompleteRun (lfnChecksum (sfnName sfn)) R) (hl : ∀ s ∈ R, slotClass s = .lfn)
     (hsfn : slotClass sfn = .file) :
-    readDirEntries alloc sv (R ++ [sfn]) = [⟨sfn, capName (stripTrailing (runUnits R)), 0, R.length + 1⟩] := by
+    readDirEntries alloc sv (R ++ [sfn]) = [⟨sfn, capName (cutAtNul (runUnits R)), 0, R.length + 1⟩] := by
   unfold readDirEntries
   rw [readLoop_lfn_block alloc sv R [sfn] 0 0 _ hl]
   rw [readLoop, hsfn]
